@@ -57,6 +57,7 @@ namespace
     {
         std::vector<WriteSpec> writes;
         int issuers = 0; // 0: loop thread, 1: one foreign thread, 2: two foreign threads
+        bool chained = false; // loop thread: each write issued from the continuation of the one before, then flush()
         std::vector<Action> script;
     };
 
@@ -119,6 +120,42 @@ namespace
         return r;
     }
 
+    Async::Promise<ssize_t> issue_one(const std::shared_ptr<Tcp::Peer>& peer, Tcp::Transport* tr, WriteSpec& ws)
+    {
+        if (ws.file)
+            return tr->asyncWrite(peer->fd(), FileBuffer(ws.path));
+        if (ws.len % 3 == 0)
+        {
+            // a buffer whose declared length is shorter than its backing string (the public
+            // RawBuffer(std::string, size_t) constructor): the write is the first `length` bytes
+            // and nothing else, and the promise carries `length`
+            std::string backing = ws.data + std::string(1 + ws.len % 97, '#') + "BEYOND-THE-DECLARED-LENGTH";
+            return tr->asyncWrite(peer->fd(), RawBuffer(std::move(backing), ws.data.size()));
+        }
+        if (ws.len % 2)
+            return peer->send(RawBuffer(ws.data.data(), ws.data.size()));
+        return tr->asyncWrite(peer->fd(), RawBuffer(ws.data.data(), ws.data.size()));
+    }
+
+    void chain_from(const std::shared_ptr<Plan>& plan, const std::shared_ptr<Tcp::Peer>& peer, Tcp::Transport* tr, size_t i)
+    {
+        if (i >= plan->writes.size())
+            return;
+        WriteSpec* p = &plan->writes[i];
+        issue_one(peer, tr, *p).then(
+            [p, plan, peer, tr, i](ssize_t n) {
+                p->value              = n;
+                p->accepted_at_fulfil = g_pol.accepted.load();
+                ++p->fulfilled;
+                if (i + 1 < plan->writes.size())
+                {
+                    chain_from(plan, peer, tr, i + 1);
+                    tr->flush();
+                }
+            },
+            [p, plan](std::exception_ptr) { ++p->rejected; });
+    }
+
     struct Shared
     {
         std::mutex m;
@@ -158,6 +195,15 @@ namespace
                     static const std::string ghost = "write for a connection that has gone";
                     tr->asyncWrite(1 << 20, RawBuffer(ghost.data(), ghost.size()));
                 }
+                // One case in three of those issued on the loop thread (derived, no choice consumed) is a chain: write
+                // i+1 is issued from the continuation of write i's promise - which runs on the loop thread, inside the
+                // transport's drain - and is followed by Transport::flush(), the way ResponseStream::flush() writes
+                // from wherever it is called.  Bytes, order and promises must be what they are for any other issuer.
+                if (plan->chained)
+                {
+                    chain_from(plan, peer, tr, 0);
+                    return;
+                }
                 for (auto& ws : plan->writes)
                 {
                     if (ws.issuer != issuer)
@@ -171,20 +217,7 @@ namespace
                         ++p->fulfilled;
                     };
                     auto onrej = [p, plan](std::exception_ptr) { ++p->rejected; };
-                    if (ws.file)
-                        tr->asyncWrite(peer->fd(), FileBuffer(ws.path)).then(onful, onrej);
-                    else if (ws.len % 3 == 0)
-                    {
-                        // a buffer whose declared length is shorter than its backing string (the public
-                        // RawBuffer(std::string, size_t) constructor): the write is the first `length` bytes
-                        // and nothing else, and the promise carries `length`
-                        std::string backing = ws.data + std::string(1 + ws.len % 97, '#') + "BEYOND-THE-DECLARED-LENGTH";
-                        tr->asyncWrite(peer->fd(), RawBuffer(std::move(backing), ws.data.size())).then(onful, onrej);
-                    }
-                    else if (ws.len % 2)
-                        peer->send(RawBuffer(ws.data.data(), ws.data.size())).then(onful, onrej);
-                    else
-                        tr->asyncWrite(peer->fd(), RawBuffer(ws.data.data(), ws.data.size())).then(onful, onrej);
+                    issue_one(peer, tr, ws).then(onful, onrej);
                 }
             };
             try
@@ -329,10 +362,13 @@ namespace verif
         for (auto& a : plan->script)
             sdesc += a.kind == Action::Pass ? "P " : a.kind == Action::Eagain ? "E "
                                                                               : "C" + std::to_string(a.k) + " ";
-        std::string ctx = std::string(plan->issuers == 0 ? "loop thread" : plan->issuers == 1 ? "one foreign thread"
+        plan->chained   = plan->issuers == 0 && n >= 2 && (n + plan->script.size()) % 3 == 0;
+        std::string ctx = std::string(plan->chained ? "loop thread, each write issued from the continuation of the one before and flushed" : plan->issuers == 0 ? "loop thread" : plan->issuers == 1 ? "one foreign thread"
                                                                                               : "two foreign threads")
             + " writes: " + desc + "| socket script: " + sdesc;
         rep.label("issuer:" + std::to_string(plan->issuers));
+        if (plan->chained)
+            rep.label("chained-from-continuations-with-flush");
         rep.sample(ctx);
 
         {
